@@ -136,6 +136,12 @@ Definition model_kind (fmt : Z) (unsigned : bool) (input out : sarr) (ix : index
   end.
 
 (* (format, unsigned coords?, input as the implementation holds it, index, x[index], todense()[index] by NumPy) *)
+Definition model_oob (input : sarr) (ix : index) : bool :=
+  match input with
+  | SCoo c => match getitem kf_all c ix with Raise RuntimeError => true | _ => false end
+  | _ => false
+  end.
+
 Definition gcase := (Z * bool * sarr * index * sarr * sarr)%type.
 
 Definition judge_getitem (c : gcase) : Z :=
@@ -149,7 +155,9 @@ Definition judge_getitem (c : gcase) : Z :=
     else if negb (k =? 0) then k + 10 * cl
     else
       let mk := model_kind fmt unsigned input out ix in
-      if mk =? 0 then 0 else mk + 10 * cl
+      if mk =? 0 then 0
+      else if model_oob input ix then 1 + 10 * 14    (* D30: the model met an unchecked out-of-bounds access *)
+      else mk + 10 * cl
   | _, _ => 8
   end.
 
